@@ -287,6 +287,8 @@ fn probe_code(a: u32, b: u32, n: u32, revert: bool) -> Vec<u8> {
     ];
     fill(&mut code, RegId::HP.to_u8(), (a + b) / 8);
     code.extend([op::cfei(n), op::movi(0x12, n), op::sub(0x11, RegId::SP, 0x12), op::logd(RegId::ZERO, RegId::ZERO, 0x11, 0x12)]);
+    // heap -> stack copy (the heap holds 0xff by now): the stack word must receive it
+    code.extend([op::movi(0x18, 8), op::mcp(0x11, RegId::HP, 0x18), op::lw(0x19, 0x11, 0), op::log(0x19, RegId::ZERO, RegId::ZERO, RegId::ZERO)]);
     fill(&mut code, 0x11, n / 8);
     code.push(op::cfsi(n));
     for _ in 0..2 {
@@ -351,7 +353,22 @@ fn run_probe_history(rng: &mut Rng, sc: &Scenario, vm: &mut Vm, idx: u64, residu
         spec.script = probe_code(a2.min(total - 8), total - a2.min(total - 8), n2, rng.bool());
         let Ok(ready) = spec.ready(&sc.world, idx * 16 + k + 0x5000_0000) else { continue };
         *vm.as_mut() = RecStorage::new(sc.world.storage.clone());
-        match rng.below(4) {
+        match rng.below(5) {
+            4 => {
+                // a transaction that allocated more than half of the memory: the heap buffer
+                // it leaves behind reaches down into the address range of the next stack
+                use fuel_asm::{
+                    RegId,
+                    op,
+                };
+                let mut big = sc.spec.clone();
+                big.script = vec![op::movi(0x10, 33 + rng.below(20) as u32), op::slli(0x10, 0x10, 20), op::aloc(0x10), op::ret(RegId::ONE)].into_iter().collect();
+                big.gas_limit = 1_000_000;
+                if let Ok(r) = big.ready(&sc.world, idx * 16 + k + 0x6000_0000) {
+                    let _ = guarded(|| vm.transact(r).map(|s| *s.state()));
+                    residues.push("probe:after-a-33-MiB-allocation");
+                }
+            }
             0 => {
                 let _ = guarded(|| vm.transact(ready).map(|s| *s.state()));
                 residues.push("probe:completed");
